@@ -38,6 +38,7 @@ type expObs struct {
 	OutErr string
 	Loads  []string
 	Steps  int
+	Raw    string // the encoding Out was parsed from
 }
 
 // hydrate rebuilds the documents of a compactly stored case.
@@ -120,7 +121,8 @@ func runExpandSpec(c *expCase, budget int) (o expObs) {
 		o.OutErr = err.Error()
 		return
 	}
-	o.Out = mustParse(string(b))
+	o.Raw = string(b)
+	o.Out = mustParse(o.Raw)
 	return
 }
 
